@@ -20,6 +20,20 @@ def make_cases(rng, tier, n):
             c = gen.basic_project(rng, "idem-%d" % i, tier, stats=stats)
             first = rng.choice("lc")
             ops = [("commit", first, [])]
+        if not pipe and i % 12 == 5:
+            # a committed copy is replaced by other bytes of the same size carrying an old timestamp; commit --copy records the new
+            # content, and the checkout --copy right after that commit is a no-op
+            fs_ = [e for e in c["init"] if e[0] == "file" and e[2].startswith("g:") and int(e[2].split(":")[2]) > 0 and
+                   any(e[1] == p_ or e[1].startswith(p_ + b"/") for p_, fl_, sp_ in s1eval.artifacts(c) if "s" not in fl_ and "r" not in fl_)]
+            if fs_:
+                e = rng.choice(fs_)
+                c["ops"] = [("commit", "c", []), ("writeold", e[1], "g:%d:%s" % (rng.randrange(100000, 200000), e[2].split(":")[2])),
+                            ("commit", "c", []), ("checkout", "c", False, []), ("commit", "c", []), ("status", [])]
+                c["seq"] = ["c", "writeold", "commit-c", "checkout-c", "commit-c"]
+                c["first_index"] = 2
+                stats["same_size_old_mtime"] = stats.get("same_size_old_mtime", 0) + 1
+                cases.append(c)
+                continue
         seq = []
         for _ in range(rng.randrange(1, 5)):
             k, s_ = rng.choice(CMDS)
@@ -47,12 +61,15 @@ def oracle(run):
     steps = run["steps"]
     v = []
     first = 1 if steps and steps[0]["op"][0] == "run" else 0
+    first = run["case"].get("first_index", first)
     if len(steps) <= first or steps[first]["rc"] != 0:
         return v
     committed = s1eval.logical(steps[first]["snap"])
     for i in range(first + 1, len(steps)):
         prev, cur = steps[i - 1], steps[i]
         op = cur["op"]
+        if op[0] not in ("commit", "checkout"):
+            continue
         what = "`%s` after `%s`" % (s1.op_text(op), " ; ".join(s1.op_text(s["op"]) for s in steps[:i]))
         if cur["rc"] != 0:
             v.append(("repeat-fails:" + op[0] + "-" + op[1] + (":over-copies" if copies_present(prev["snap"], committed) else ""),
